@@ -44,25 +44,80 @@ const CHAN_PROPS: [&str; 6] = ["C01", "C02", "C03", "C04", "C05", "C09"];
 struct ChanBuilder {
     out: Vec<Scenario>,
 }
+
+/// one shape instance before tiering
+struct Shape {
+    name: &'static str,
+    cap: Option<usize>,
+    asyn: bool,
+    n_tx: u8,
+    n_rx: u8,
+    drains: bool,
+    prefill: Vec<u32>,
+    threads: Vec<ThreadProg>,
+}
+
+fn is_lock_based(fl: Flavour) -> bool {
+    // every operation of these two goes through the HybridMutex-protected core: one operation is
+    // 5-10x the scheduling points of the lock-free flavours
+    matches!(fl, Flavour::MpmcBounded | Flavour::MpmcUnbounded)
+}
+
 impl ChanBuilder {
-    #[allow(clippy::too_many_arguments)]
-    fn add(&mut self, fl: Flavour, shape: &str, cap: Option<usize>, asyn: bool, n_tx: u8, n_rx: u8, drains: bool, threads: Vec<ThreadProg>, tiers: (Option<usize>, Option<usize>)) {
-        let nthreads = threads.len();
-        let ops = threads.iter().map(|t| t.steps.len()).max().unwrap_or(0);
-        let shape_full = if fl.is_bounded() { format!("{}_cap{}", shape, cap.unwrap()) } else { shape.to_string() };
+    /// default tiers: 2 threads quick 2 / thorough 3; 3 threads quick 1 / thorough 2; measured
+    /// exceptions (state spaces of the lock-based flavours) are listed in `tier_override`.
+    fn add(&mut self, fl: Flavour, sh: Shape) {
+        let nthreads = sh.threads.len();
+        let ops = sh.threads.iter().map(|t| t.steps.len()).max().unwrap_or(0);
+        let shape_full = if fl.is_bounded() { format!("{}_cap{}", sh.name, sh.cap.unwrap()) } else { sh.name.to_string() };
+        let name = format!("{}/{}", fl.name(), shape_full);
+        let mut tiers = if nthreads >= 3 { (Some(1), Some(2)) } else { (Some(2), Some(3)) };
+        if let Some(t) = tier_override(&name) {
+            tiers = t;
+        }
         self.out.push(Scenario {
-            name: format!("{}/{}", fl.name(), shape_full),
+            name,
             component: fl.name().into(),
             shape: shape_full,
             props: CHAN_PROPS.to_vec(),
             threads: nthreads,
             ops,
-            cap: cap_name(cap),
+            cap: cap_name(sh.cap),
             pb_quick: tiers.0,
             pb_thorough: tiers.1,
-            body: Body::Chan(ChanScen { flavour: fl, cap, asyn, n_tx, n_rx, threads, drains }),
+            body: Body::Chan(ChanScen { flavour: fl, cap: sh.cap, asyn: sh.asyn, n_tx: sh.n_tx, n_rx: sh.n_rx, threads: sh.threads, drains: sh.drains, prefill: sh.prefill }),
         });
     }
+}
+
+/// (quick, thorough) preemption bounds where the default would not finish inside the tier's
+/// per-scenario budget (≈ 50 k executions quick, ≈ 5 M thorough; measured, see DESIGN §9).
+fn tier_override(name: &str) -> Option<(Option<usize>, Option<usize>)> {
+    const T: &[(&str, Option<usize>, Option<usize>)] = &[
+        // mpmc bounded with a parked sender in the program: > 150 k executions already at bound 1
+        ("mpmc_bounded/1p1c_send2_drain_cap1", None, Some(1)),
+        ("mpmc_bounded/send2_vs_trydrain_cap1", None, Some(1)),
+        ("mpmc_bounded/send_batch2_vs_drain_cap1", None, Some(1)),
+        ("mpmc_bounded/async_1p1c_send2_drain_cap1", None, Some(1)),
+        ("mpmc_bounded/recv_rxdrop_vs_send2_cap1", Some(1), Some(2)),
+        // three threads on the lock-based flavours
+        ("mpmc_bounded/2p1c_send1_each_cap1", None, Some(0)),
+        ("mpmc_bounded/2p1c_send1_each_cap2", Some(0), Some(1)),
+        ("mpmc_bounded/1p2c_send2_drain_cap1", None, None), // > 1.3 M executions at bound 0: not run
+        ("mpmc_bounded/1p2c_send1_drain_cap1", Some(0), Some(1)),
+        ("mpmc_bounded/rxclone_drop_vs_send_cap1", Some(0), Some(1)),
+        ("mpmc_bounded/txclone_drop_vs_send_cap1", Some(0), Some(1)),
+        ("mpmc_bounded/try_send_race_vs_drain_cap1", Some(0), Some(1)),
+        ("mpmc_bounded/try_send_race_idle_rx_cap1", Some(2), Some(3)),
+        ("mpmc_bounded/send2_vs_2recv_sender_alive_cap2", Some(1), Some(2)),
+        ("mpmc_bounded/batch2_vs_2recv_sender_alive_cap2", Some(1), Some(2)),
+        ("mpmc_unbounded/1p2c_send2_drain", Some(0), Some(1)),
+        ("mpmc_unbounded/1p2c_send1_drain", Some(1), Some(2)),
+        ("mpmc_unbounded/2p1c_send1_each", Some(1), Some(2)),
+        ("mpmc_unbounded/send2_vs_2recv_sender_alive", Some(2), Some(2)),
+        ("mpmc_unbounded/batch2_vs_2recv_sender_alive", Some(2), Some(2)),
+    ];
+    T.iter().find(|x| x.0 == name).map(|x| (x.1, x.2))
 }
 
 fn caps_of(fl: Flavour, bounded: &[usize]) -> Vec<Option<usize>> {
@@ -78,139 +133,116 @@ fn caps_of(fl: Flavour, bounded: &[usize]) -> Vec<Option<usize>> {
 pub fn channel_scenarios() -> Vec<Scenario> {
     use Step::*;
     let mut b = ChanBuilder { out: Vec::new() };
-    let t2 = (Some(2), Some(3));
-    let t3 = (Some(1), Some(2));
+    let sh = |name: &'static str, cap: Option<usize>, threads: Vec<ThreadProg>| Shape { name, cap, asyn: false, n_tx: 1, n_rx: 1, drains: true, prefill: vec![], threads };
     for fl in Flavour::ALL {
-        // A: producer sends two and leaves; consumer blocks until Disconnected, then probes once more.
+        // A: producer sends two and leaves; consumer probes once, blocks until Disconnected, probes again.
         //    cap 1: the producer must park and be woken; the consumer parks on empty and is woken.
         for cap in caps_of(fl, &[1, 2]) {
-            b.add(fl, "1p1c_send2_drain", cap, false, 1, 1, true, vec![tp(None, Some(0), vec![TryRecv, Drain, TryRecv]), tp(Some(0), None, vec![Send(1), Send(2)])], t2);
+            b.add(fl, sh("1p1c_send2_drain", cap, vec![tp(None, Some(0), vec![TryRecv, Drain, TryRecv]), tp(Some(0), None, vec![Send(1), Send(2)])]));
+        }
+        if fl.is_bounded() {
+            // A': same back-pressure with the first value placed before the threads start (smaller space)
+            b.add(fl, Shape { prefill: vec![1], ..sh("backpressure_prefilled", Some(1), vec![tp(None, Some(0), vec![Drain]), tp(Some(0), None, vec![Send(2)])]) });
+            b.add(fl, Shape { prefill: vec![1], ..sh("backpressure_prefilled_trydrain", Some(1), vec![tp(None, Some(0), vec![DrainTry]), tp(Some(0), None, vec![Send(2)])]) });
+            b.add(fl, Shape { prefill: vec![1], asyn: true, ..sh("async_backpressure_prefilled", Some(1), vec![tp(None, Some(0), vec![Drain]), tp(Some(0), None, vec![Send(2)])]) });
+            // ring wrap: three values through capacity 2
+            b.add(fl, Shape { prefill: vec![1], ..sh("wrap_prefilled_send2_drain", Some(2), vec![tp(None, Some(0), vec![Drain]), tp(Some(0), None, vec![Send(2), Send(3)])]) });
         }
         // B: last sender publishes its final item and drops while the consumer polls with try_recv
         for cap in caps_of(fl, &[1]) {
-            b.add(fl, "straggler_trydrain", cap, false, 1, 1, true, vec![tp(None, Some(0), vec![DrainTry]), tp(Some(0), None, vec![Send(1)])], t2);
+            b.add(fl, sh("straggler_trydrain", cap, vec![tp(None, Some(0), vec![DrainTry]), tp(Some(0), None, vec![Send(1)])]));
         }
         // C: blocked sender, consumer only ever uses try_recv (keeps receiving until Disconnected)
         if fl.is_bounded() {
-            b.add(fl, "send2_vs_trydrain", Some(1), false, 1, 1, true, vec![tp(None, Some(0), vec![DrainTry]), tp(Some(0), None, vec![Send(1), Send(2)])], t2);
+            b.add(fl, sh("send2_vs_trydrain", Some(1), vec![tp(None, Some(0), vec![DrainTry]), tp(Some(0), None, vec![Send(1), Send(2)])]));
         }
         // D: try_send x2 against a draining consumer (Full hand-back, false Full, rendezvous pairing)
         for cap in caps_of(fl, &[1]) {
-            b.add(fl, "try_send2_vs_drain", cap, false, 1, 1, true, vec![tp(None, Some(0), vec![Drain]), tp(Some(0), None, vec![TrySend(1), TrySend(2)])], t2);
+            b.add(fl, sh("try_send2_vs_drain", cap, vec![tp(None, Some(0), vec![TryRecv, Drain]), tp(Some(0), None, vec![TrySend(1), TrySend(2)])]));
         }
         // E: receiver dropped while the sender sends / is parked
         for cap in caps_of(fl, &[1]) {
-            b.add(fl, "rxdrop_vs_send2", cap, false, 1, 1, false, vec![tp(None, Some(0), vec![DropRx]), tp(Some(0), None, vec![Send(1), Send(2)])], t2);
+            b.add(fl, Shape { drains: false, ..sh("rxdrop_vs_send2", cap, vec![tp(None, Some(0), vec![DropRx]), tp(Some(0), None, vec![Send(1), Send(2)])]) });
             if !fl.is_unbounded() {
-                b.add(fl, "recv_rxdrop_vs_send2", cap, false, 1, 1, false, vec![tp(None, Some(0), vec![Recv, DropRx]), tp(Some(0), None, vec![Send(1), Send(2)])], t2);
+                b.add(fl, Shape { drains: false, ..sh("recv_rxdrop_vs_send2", cap, vec![tp(None, Some(0), vec![Recv, DropRx]), tp(Some(0), None, vec![Send(1), Send(2)])]) });
             }
         }
         // F: last sender dropped while the receiver is (about to be) parked
         for cap in caps_of(fl, &[1]) {
-            b.add(fl, "txdrop_vs_recv", cap, false, 1, 1, true, vec![tp(None, Some(0), vec![TryRecv, Recv]), tp(Some(0), None, vec![])], t2);
+            b.add(fl, sh("txdrop_vs_recv", cap, vec![tp(None, Some(0), vec![TryRecv, Recv]), tp(Some(0), None, vec![])]));
         }
         // G/H: timed receive (ZERO) racing a send: Ok for the sender means somebody receives it
         for cap in caps_of(fl, &[1]) {
-            b.add(fl, "timeout0_vs_try_send", cap, false, 1, 1, true, vec![tp(None, Some(0), vec![RecvT0, Drain]), tp(Some(0), None, vec![TrySend(1)])], t2);
-            b.add(fl, "timeout0_vs_send", cap, false, 1, 1, true, vec![tp(None, Some(0), vec![RecvT0, Drain]), tp(Some(0), None, vec![Send(1)])], t2);
+            b.add(fl, sh("timeout0_vs_try_send", cap, vec![tp(None, Some(0), vec![RecvT0, Drain]), tp(Some(0), None, vec![TrySend(1)])]));
+            b.add(fl, sh("timeout0_vs_send", cap, vec![tp(None, Some(0), vec![RecvT0, Drain]), tp(Some(0), None, vec![Send(1)])]));
         }
         // N: batch of two (parks mid-batch at cap 1; one swap publishes two nodes on the chains)
         if fl.has_batch() {
             for cap in caps_of(fl, &[1]) {
-                b.add(fl, "send_batch2_vs_drain", cap, false, 1, 1, true, vec![tp(None, Some(0), vec![TryRecv, Drain]), tp(Some(0), None, vec![SendBatch(vec![1, 2])])], t2);
+                b.add(fl, sh("send_batch2_vs_drain", cap, vec![tp(None, Some(0), vec![TryRecv, Drain]), tp(Some(0), None, vec![SendBatch(vec![1, 2])])]));
             }
         }
-        // I: two producers, one item each
         if fl.multi_tx() {
+            // I: two producers, one item each
             for cap in caps_of(fl, &[1, 2]) {
                 b.add(
                     fl,
-                    "2p1c_send1_each",
-                    cap,
-                    false,
-                    2,
-                    1,
-                    true,
-                    vec![tp(None, Some(0), vec![Drain]), tp(Some(0), None, vec![Send(11)]), tp(Some(1), None, vec![Send(21)])],
-                    t3,
+                    Shape { n_tx: 2, ..sh("2p1c_send1_each", cap, vec![tp(None, Some(0), vec![Drain]), tp(Some(0), None, vec![Send(11)]), tp(Some(1), None, vec![Send(21)])]) },
                 );
+            }
+            // one of two sender clones is dropped while the other sends: nothing may disconnect
+            for cap in caps_of(fl, &[1]) {
+                b.add(fl, Shape { n_tx: 2, ..sh("txclone_drop_vs_send", cap, vec![tp(None, Some(0), vec![Drain]), tp(Some(0), None, vec![Send(11)]), tp(Some(1), None, vec![DropTx])]) });
             }
         }
         if fl.multi_tx() && fl.is_bounded() {
             // L: two try_sends race for the single slot
             b.add(
                 fl,
-                "try_send_race_idle_rx",
-                Some(1),
-                false,
-                2,
-                1,
-                true,
-                vec![tp(None, Some(0), vec![JoinAll, Drain]), tp(Some(0), None, vec![TrySend(11)]), tp(Some(1), None, vec![TrySend(21)])],
-                t3,
+                Shape { n_tx: 2, ..sh("try_send_race_idle_rx", Some(1), vec![tp(None, Some(0), vec![JoinAll, Drain]), tp(Some(0), None, vec![TrySend(11)]), tp(Some(1), None, vec![TrySend(21)])]) },
             );
-            b.add(
-                fl,
-                "try_send_race_vs_drain",
-                Some(1),
-                false,
-                2,
-                1,
-                true,
-                vec![tp(None, Some(0), vec![Drain]), tp(Some(0), None, vec![TrySend(11)]), tp(Some(1), None, vec![TrySend(21)])],
-                t3,
-            );
+            b.add(fl, Shape { n_tx: 2, ..sh("try_send_race_vs_drain", Some(1), vec![tp(None, Some(0), vec![Drain]), tp(Some(0), None, vec![TrySend(11)]), tp(Some(1), None, vec![TrySend(21)])]) });
         }
         if fl.multi_rx() {
             // J: one producer, two draining consumers
             for cap in caps_of(fl, &[1]) {
+                b.add(fl, Shape { n_rx: 2, ..sh("1p2c_send2_drain", cap, vec![tp(None, Some(0), vec![Drain]), tp(Some(0), None, vec![Send(1), Send(2)]), tp(None, Some(1), vec![Drain])]) });
+                b.add(fl, Shape { n_rx: 2, ..sh("1p2c_send1_drain", cap, vec![tp(None, Some(0), vec![Drain]), tp(Some(0), None, vec![Send(1)]), tp(None, Some(1), vec![Drain])]) });
+                // one of two receiver clones is dropped while the sender sends: no Closed
                 b.add(
                     fl,
-                    "1p2c_send2_drain",
-                    cap,
-                    false,
-                    1,
-                    2,
-                    true,
-                    vec![tp(None, Some(0), vec![Drain]), tp(Some(0), None, vec![Send(1), Send(2)]), tp(None, Some(1), vec![Drain])],
-                    t3,
+                    Shape { n_rx: 2, ..sh("rxclone_drop_vs_send", cap, vec![tp(None, Some(0), vec![Drain]), tp(Some(0), None, vec![Send(1)]), tp(None, Some(1), vec![DropRx])]) },
                 );
             }
             // K: two receivers each block in one recv; the producer stays alive until both are back
             for cap in caps_of(fl, &[2]) {
                 b.add(
                     fl,
-                    "send2_vs_2recv_sender_alive",
-                    cap,
-                    false,
-                    1,
-                    2,
-                    false,
-                    vec![tp(Some(0), None, vec![Send(1), Send(2), JoinAll]), tp(None, Some(0), vec![Recv]), tp(None, Some(1), vec![Recv])],
-                    t3,
+                    Shape {
+                        n_rx: 2,
+                        drains: false,
+                        ..sh("send2_vs_2recv_sender_alive", cap, vec![tp(Some(0), None, vec![Send(1), Send(2), JoinAll]), tp(None, Some(0), vec![Recv]), tp(None, Some(1), vec![Recv])])
+                    },
                 );
                 if fl.has_batch() {
                     b.add(
                         fl,
-                        "batch2_vs_2recv_sender_alive",
-                        cap,
-                        false,
-                        1,
-                        2,
-                        false,
-                        vec![tp(Some(0), None, vec![SendBatch(vec![1, 2]), JoinAll]), tp(None, Some(0), vec![Recv]), tp(None, Some(1), vec![Recv])],
-                        t3,
+                        Shape {
+                            n_rx: 2,
+                            drains: false,
+                            ..sh("batch2_vs_2recv_sender_alive", cap, vec![tp(Some(0), None, vec![SendBatch(vec![1, 2]), JoinAll]), tp(None, Some(0), vec![Recv]), tp(None, Some(1), vec![Recv])])
+                        },
                     );
                 }
             }
         }
         // M: async handles on the mini executor
         for cap in caps_of(fl, &[1]) {
-            b.add(fl, "async_1p1c_send2_drain", cap, true, 1, 1, true, vec![tp(None, Some(0), vec![TryRecv, Drain]), tp(Some(0), None, vec![Send(1), Send(2)])], t2);
-            b.add(fl, "async_recvfut_drop_vs_send", cap, true, 1, 1, true, vec![tp(None, Some(0), vec![RecvPollDrop, Drain]), tp(Some(0), None, vec![Send(1)])], t2);
-            b.add(fl, "async_recvfut_drop_vs_try_send", cap, true, 1, 1, true, vec![tp(None, Some(0), vec![RecvPollDrop, Drain]), tp(Some(0), None, vec![TrySend(1)])], t2);
+            b.add(fl, Shape { asyn: true, ..sh("async_1p1c_send2_drain", cap, vec![tp(None, Some(0), vec![TryRecv, Drain]), tp(Some(0), None, vec![Send(1), Send(2)])]) });
+            b.add(fl, Shape { asyn: true, ..sh("async_recvfut_drop_vs_send", cap, vec![tp(None, Some(0), vec![RecvPollDrop, Drain]), tp(Some(0), None, vec![Send(1)])]) });
+            b.add(fl, Shape { asyn: true, ..sh("async_recvfut_drop_vs_try_send", cap, vec![tp(None, Some(0), vec![RecvPollDrop, Drain]), tp(Some(0), None, vec![TrySend(1)])]) });
             if !fl.is_unbounded() {
-                b.add(fl, "async_rxdrop_vs_send2", cap, true, 1, 1, false, vec![tp(None, Some(0), vec![DropRx]), tp(Some(0), None, vec![Send(1), Send(2)])], t2);
+                b.add(fl, Shape { asyn: true, drains: false, ..sh("async_rxdrop_vs_send2", cap, vec![tp(None, Some(0), vec![DropRx]), tp(Some(0), None, vec![Send(1), Send(2)])]) });
             }
         }
     }
